@@ -255,12 +255,27 @@ func (w *Reconciler) syncJobTasks(
 // cache of Jobs, in which case a task that was just created would otherwise be
 // treated as lost (and be created a second time, or be left behind when the Job
 // is finalized).
+//
+// For the same reason, a task that was already recorded to be finished but is
+// not finished in the cache is read from the apiserver: its final status may
+// have been recorded from such a lookup, and the outdated task in the cache
+// would otherwise take the recorded result of the task (and of the Job) back.
 func (w *Reconciler) getTaskForRef(
 	ctx context.Context, taskMgr jobtasks.Executor, ref execution.TaskRef,
 ) (jobtasks.Task, error) {
 	task, err := taskMgr.Lister().Get(ref.Name)
 	if err == nil {
-		return task, nil
+		if ref.FinishTimestamp.IsZero() || !task.GetTaskRef().FinishTimestamp.IsZero() {
+			return task, nil
+		}
+		liveTask, err := taskMgr.Client().Get(ctx, ref.Name)
+		if kerrors.IsNotFound(err) {
+			return nil, nil
+		}
+		if err != nil {
+			return nil, err
+		}
+		return liveTask, nil
 	}
 	if !kerrors.IsNotFound(err) {
 		return nil, err
